@@ -1,6 +1,9 @@
 #include "conjunction.h"
 #include "env.h"
 #include "core_parser.h"
+#ifdef ORATIO_VERIF
+#include "core.h"
+#endif
 
 namespace ratio
 {
@@ -9,6 +12,9 @@ namespace ratio
     CORE_EXPORT void conjunction::apply(context &ctx)
     {
         context c_ctx(new env(get_core(), context(ctx)));
+#ifdef ORATIO_VERIF
+        get_core().verif_note(1, this, nullptr, c_ctx, &*ctx);
+#endif
         for (const auto &s : statements)
             dynamic_cast<const ast::statement *>(s)->execute(*this, c_ctx);
     }
